@@ -14,6 +14,7 @@ FIXED = [
  ("KF-C01-9", "C01", "238526d", "C01.same_outcome", "the annotation of an attribute target (o.m: OnlyForTypeCheckers = v) is counted as a use of the names it mentions: PteraNameError under full instrumentation although Python never evaluates it"),
  ("KF-C01-10", "C01", "21219a0", "C01.same_outcome", "the name of an inner 'async def' is taken for an undefined global: PteraNameError at entry under full instrumentation"),
  ("KF-C01-11", "C01", "4a621bd", "C01.same_outcome", "StopIteration thrown into an instrumented generator reaches the generator as RuntimeError (regression of 5958c50: PEP 479 applies to the helper the yields are delegated to)"),
+ ("KF-C01-12", "C01", "b9cba87", "C01.same_envlog", "o[lo():hi()] = v evaluates the bounds of the slice twice, and before the value, once o is instrumented (0150888 left slices out)"),
  ("KF-C04-6", "C04", "3b96448", "demo:findings/review/R2/demo_5.py", "an override of a global that the function declares ('global G') but only reads is stored into the module and outlives the call and the probe (regression of 4d5f0fd)"),
  ("KF-C16-6", "C16", "c3d53db", "demo:findings/review/R4/demo_2.py", "a declared-only variable reached by a generator that is resumed after its probes ended fails with TypeError ('NoneType' is not subscriptable) instead of a name error"),
  ("KF-C02-1", "C02", "f50c678", "C02.activation", "a variable assigned only inside an except block cannot be probed: 'Cannot find a variable named ...'"),
